@@ -1,7 +1,7 @@
 SPECIFICATION Spec
 CONSTANTS
   Vars = {x, y}
-  MaxG = 2
+  MaxG = 1
   Strong = TRUE
   Ops = {"compose", "merge"}
 SYMMETRY Sym
